@@ -43,8 +43,12 @@ def histories(maxlen):
     for n in range(2, maxlen + 1):
         for s in itertools.product('CF', repeat=n):
             s = ''.join(s)
-            if s[0] != 'C' or 'CC' in s or s.endswith('C'):
+            if s[0] != 'C' or 'CCC' in s:
                 continue
+            # 'CC' / trailing 'C' = a change without files (it then carries
+            # metadata): "..meta -> .change" is a don't-care of the
+            # hierarchy, but where reader / writer accept it the encoding
+            # scopes must still be right
             out.append(s)
     return out
 
@@ -127,6 +131,9 @@ def build(history, cont_mask, content_mode, rng=None, main_declares=True,
             if p:
                 cur['preamble'] = p
             m = mk_meta(cenc, 'c%dm' % i)
+            fileless = i + 1 >= len(history) or history[i + 1] == 'C'
+            if m is None and fileless:
+                m = {'obj': {'k': ['v!|', 'c%dm' % i]}, 'encoding': nxt()}
             if m:
                 cur['meta'] = m
             doc['changes'].append(cur)
@@ -150,7 +157,13 @@ def build(history, cont_mask, content_mode, rng=None, main_declares=True,
     return doc
 
 
+def has_fileless_change(doc):
+    return any(not ch.get('files') for ch in doc['changes'])
+
+
 def check_case(doc, obs, tag='enum'):
+    if has_fileless_change(doc):
+        return check_fileless(doc, obs)
     want, layout = serialize(doc)
     expected = expected_records(layout)
     declared = set(s['options'].get('encoding') for s in layout
@@ -276,7 +289,9 @@ def run(ctx):
         ln = rng.randint(2, ctx.pick(14, 40))
         h = 'C'
         while len(h) < ln:
-            h += 'F' if h[-1] == 'C' else rng.choice('FFC')
+            h += rng.choice('FFFFFFC') if h[-1] == 'C' and \
+                not h.endswith('CC') else ('F' if h[-1] == 'C'
+                                           else rng.choice('FFC'))
         if h.endswith('C'):
             h += 'F'
         mask = [rng.random() < 0.45 for _ in h]
@@ -403,3 +418,37 @@ def check_dom_writer(doc, obs):
                             'effective_encoding': sec.get('codec'),
                             'got': data[i - 5:i + 40],
                             'want': want[i - 5:i + 40]})
+
+
+def check_fileless(doc, obs):
+    """Documents with a change that has metadata but no files. Either side
+    may reject the order (don't-care); what is accepted must be scoped
+    right."""
+    from pydiffx.errors import DiffXSectionOrderError, DiffXParseError
+    want, layout = serialize(doc)
+    expected = expected_records(layout)
+    obs.case(doc, nontrivial=True)
+    obs.count('case:fileless_change')
+    stream = MonitoredStream()
+    try:
+        recipe.run_writer(recipe.writer_calls(doc), stream)
+        if stream.getvalue() != want:
+            obs.violation('writer_scope:bytes_differ_in:fileless_change_doc',
+                          doc)
+    except DiffXSectionOrderError:
+        obs.count('tolerance:writer_rejects_fileless_change')
+    except Exception as e:
+        obs.violation('writer_scope:raised:%s' % common.exc_mechanism(e),
+                      doc, repr(e)[:200])
+    got, exc, _ = common.read_records(want)
+    if isinstance(exc, DiffXParseError) and 'section ID' in str(exc):
+        obs.count('tolerance:reader_rejects_fileless_change')
+        return
+    obs.count('reader_sections_checked', len(got))
+    if exc is not None:
+        obs.violation('reader_scope:reader_raised_in:fileless_change_doc:%s'
+                      % type(exc).__name__, doc, repr(exc)[:200])
+        return
+    d = common.diff_records(expected, got)
+    if d is not None:
+        obs.violation('reader_scope:%s' % d[0], doc, d[1])
